@@ -104,7 +104,7 @@ package corebgp
 //@   ensures [requester_refused_when_other_established] t.to == 5 && !(i == 1 && t.to < t.from) && old(p.fsmState[1-i]) == 6 ==> p.fsms[i] == nil && p.fsms[1-i] == old(p.fsms[1-i]) && p.fsmState[1-i] == 6
 //@   ensures [collision_loser_requester_closed] collision && !requesterWins ==> p.fsms[i] == nil && !fsmRunning(old(p.fsms[i])) && p.fsms[1-i] == old(p.fsms[1-i]) && p.fsmState[1-i] == 5 && fsmRunning(p.fsms[1-i]) && !chanClosed(p.fsms[1-i].closeCh)
 //@   ensures [collision_winner_requester_kills_other] collision && requesterWins && killed ==> p.fsms[1-i] == nil && !fsmRunning(old(p.fsms[1-i])) && p.fsms[i] == old(p.fsms[i]) && fsmRunning(p.fsms[i]) && !chanClosed(p.fsms[i].closeCh)
-//@   ensures [collision_winner_never_refused_by_manager] collision && requesterWins && !gotOther && !killed && !closing ==> p.fsms[i] == old(p.fsms[i]) && p.fsms[i] != nil
+//@   ensures [collision_winner_never_refused_by_manager] collision && requesterWins ==> gotOther || killed || closing
 //@   ensures [collision_closing] collision && requesterWins && closing ==> p.fsms[0] == old(p.fsms[0]) && p.fsms[1] == old(p.fsms[1]) && p.fsmState[0] == old(p.fsmState[0]) && p.fsmState[1] == old(p.fsmState[1])
 
 // ---- the manager loop ----
